@@ -36,7 +36,7 @@ func (pid *PID) VerifBehaviors() []Behavior {
 	if pid.behaviorStack == nil {
 		return out
 	}
-	for p := atomic.LoadPointer(&pid.behaviorStack.top); p != nil; {
+	for p := atomic.LoadPointer(&pid.behaviorStack.top); p != nil && len(out) < verifWalkLimit; {
 		node := (*bnode)(p)
 		out = append(out, node.value)
 		p = atomic.LoadPointer(&node.next)
@@ -57,6 +57,9 @@ func (pid *PID) VerifDefaultBehavior() Behavior {
 	return pid.actor.Receive
 }
 
+// verifWalkLimit bounds the list walks of this file.
+const verifWalkLimit = 1 << 12
+
 // verifBoxMessages lists the messages linked into an UnboundedMailbox, oldest first.
 func verifBoxMessages(box *UnboundedMailbox) []any {
 	var out []any
@@ -66,6 +69,9 @@ func verifBoxMessages(box *UnboundedMailbox) []any {
 	head := (*ReceiveContext)(atomic.LoadPointer(&box.head))
 	for cur := (*ReceiveContext)(atomic.LoadPointer(&head.next)); cur != nil; cur = (*ReceiveContext)(atomic.LoadPointer(&cur.next)) {
 		out = append(out, cur.message)
+		if len(out) >= verifWalkLimit {
+			break // a corrupted (cyclic) list must not hang the harness
+		}
 	}
 	return out
 }
